@@ -140,6 +140,8 @@ type Kernel struct {
 	ifaces         []Iface
 	nextSock       int
 	socks          []*Sock
+	AcceptLog      []int // endpoint ids in accept4 order
+	OnAccept       func(sockID int)
 	UDPRecv        []UDPRecvRec
 	UDPSent        []UDPSentRec
 	nextDgram      int
